@@ -352,10 +352,19 @@ macro_rules! g_recv_async {
   };
 }
 
+/// timeout of the `recv_timeout` op in milliseconds (`CHANH_TIMEOUT_MS`, default 40): small, because a timeout that
+/// the scheduler fires costs the remaining REAL time (shim `park_timeout`); large enough that it does not pass by
+/// itself during a run of a few hundred microseconds
+pub fn timeout_ms() -> u64 {
+  static T: std::sync::OnceLock<u64> = std::sync::OnceLock::new();
+  *T.get_or_init(|| std::env::var("CHANH_TIMEOUT_MS").ok().and_then(|v| v.parse().ok()).filter(|v| *v >= 1).unwrap_or(40))
+}
+
 macro_rules! g_timeout {
   ($h:expr, $op:expr) => {
     match $op.name() {
       "recv_timeout0" => Some(fmt_recv_to($h.recv_timeout(Duration::ZERO))),
+      "recv_timeout" => Some(fmt_recv_to($h.recv_timeout(Duration::from_millis(timeout_ms())))),
       _ => None,
     }
   };
